@@ -484,7 +484,7 @@ RowsOK == Post =>
 IdxSubsets ==
   LET nz == prob.nz  n == Len(nz)  M == MM(prob.S)
       pick(a, b) == SelectSeq(nz, LAMBDA e : (((e[1] * a) + (e[2] * b)) % 5) < 2)
-      outside == AscSeq({q \in {<<0, M - 1>>, <<M - 1, 0>>, <<M \div 2, 0>>} : q \notin Range(nz)})
+      outside == SelectSeq(<<<<0, M - 1>>, <<M - 1, 0>>, <<M \div 2, 0>>>>, LAMBDA q : q \notin Range(nz))
   IN {Reverse(nz), pick(3, 1) \o outside, <<nz[1], nz[n], nz[1]>> \o outside, pick(1, 2)}
 Configs ==
   LET syms == IF (PVec /\ ~PSq) THEN {FALSE} ELSE BOOLEAN IN
